@@ -403,6 +403,34 @@ def run(chk):
                 "and compile(ast.parse(ast.unparse(hy_compile(p)))); parse: every tree of the C10 generator (no compile-time "
                 "heads) that the compiler accepts; hy2py: hy2py_worker on program text; non-trivial = program that logs at "
                 "least one event / tree of more than 12 characters")
-    behaviour_oracle(chk, hy, 40000 if thorough else 2500)
-    parse_oracle(chk, hy, 150000 if thorough else 9000)
+    behaviour_oracle(chk, hy, 40000 if thorough else 1800)
+    parse_oracle(chk, hy, 150000 if thorough else 6000)
     hy2py_end_to_end(chk, hy, 3000 if thorough else 200)
+
+
+def replay(path):
+    """re-run the oracle on the program of a replay file"""
+    import json
+    d = json.load(open(path))
+    print(json.dumps({k: d.get(k) for k in ("key", "observed", "expected", "how")}, indent=1, ensure_ascii=False)[:3000])
+    inp = d.get("input", {})
+    if "program" not in inp:
+        return 1
+    hy = vlib.use_repo_in_process()
+    import hy.compiler  # noqa
+    mod = types.ModuleType("zq_c14_replay")
+    sys.modules["zq_c14_replay"] = mod
+    src = inp["program"]
+    tree = hy.compiler.hy_compile(hy.read_many(src), mod, source=src, filename="<c14>")
+    py = ast.unparse(tree)
+    print(py)
+    try:
+        o2 = observe(compile(ast.parse(py), "<c14>", "exec"), "zq_c14_run")
+    except SyntaxError as e:
+        print("unparsed source does not parse:", e)
+        return 1
+    o1 = observe(compile(tree, "<c14>", "exec"), "zq_c14_run")
+    same = o1 == o2
+    print("compiled AST :", o1)
+    print("unparsed src :", o2)
+    return 0 if same else 1
